@@ -47,6 +47,7 @@ def required(tier):
         "mode.ignore_case": 30,
         "mode.custom_recognition": 30,
         "mode.consume_input_off": 30,
+        "mode.precomputed_table": 15,
         "events.stop_offered_next_to_tokens": 2000,
         "kind.custom": 30,
         "kind.kw": 30,
@@ -261,7 +262,7 @@ def run(ctx):
         mon.uninstall()
 
 
-def build(text, mode, tdefs, custom, ignore_case, passthrough, prefix_mode=False):
+def build(text, mode, tdefs, custom, ignore_case, passthrough, prefix_mode=False, pretable=False):
     recs = {n: custom_recognizer(tdefs[n], ignore_case, style=(sum(map(ord, n)) + len(text)) % 3) for n in custom} or None
     pg = pgx.grammar(text, recognizers=recs, ignore_case=ignore_case)
     kw = {}
@@ -270,6 +271,12 @@ def build(text, mode, tdefs, custom, ignore_case, passthrough, prefix_mode=False
     if prefix_mode:
         kw["consume_input"] = False
     if mode == "lr":
+        if pretable:
+            # a table computed beforehand with create_table() and handed over: same scanner behaviour
+            import parglare.tables as T
+
+            with pgx.quiet():
+                kw["table"] = T.create_table(pg, prefer_shifts=True, prefer_shifts_over_empty=True)
         return pg, pgx.lr(pg, **kw)
     if mode == "glr":
         return pg, pgx.glr(pg, **kw)
@@ -286,6 +293,7 @@ def one_grammar(ctx, mon, gi):
     # position; it must not change which real tokens are found (whether STOP itself survives
     # lexical disambiguation is C17's subject, KF-C17-1)
     prefix_mode = rng.random() < 0.2
+    pretable = rng.random() < 0.15
     maxlen = 4 if ctx.tier == "quick" else 5
     alphabet = "abc" if not ignore_case else "abAB"
     if keyword:
@@ -304,9 +312,10 @@ def one_grammar(ctx, mon, gi):
             "ignore_case": ignore_case,
             "passthrough": passthrough,
             "prefix_mode": prefix_mode,
+            "pretable": pretable,
         }
         try:
-            pg, parser = build(text, mode, tdefs, custom, ignore_case, passthrough, prefix_mode)
+            pg, parser = build(text, mode, tdefs, custom, ignore_case, passthrough, prefix_mode, pretable)
         except Exception as e:  # noqa: BLE001
             ctx.count("construction_failed:" + type(e).__name__)
             continue
@@ -317,6 +326,8 @@ def one_grammar(ctx, mon, gi):
             ctx.count("mode.custom_recognition")
         if prefix_mode:
             ctx.count("mode.consume_input_off")
+        if pretable and mode == "lr":
+            ctx.count("mode.precomputed_table")
         for d in tdefs.values():
             ctx.count("kind." + d.kind)
         if custom:
@@ -400,7 +411,7 @@ def replay(case, ctx):
     mon = LRMonitor(record_events=True)
     mon.install()
     try:
-        pg, parser = build(case["grammar"], case["mode"], tdefs, custom, case["ignore_case"], case["passthrough"], case.get("prefix_mode", False))
+        pg, parser = build(case["grammar"], case["mode"], tdefs, custom, case["ignore_case"], case["passthrough"], case.get("prefix_mode", False), case.get("pretable", False))
         check_input(ctx, mon, parser, case, tdefs, custom, case["input"])
     finally:
         mon.uninstall()
